@@ -14,19 +14,20 @@ from lib_frames import Batch, Env, Leaf, box_names, build, canon_measure, canon_
 
 PROPERTY = "C08"
 
-# CODE VARIANT FLAGS — the value that matches TODAY's code in /repo (see Model/Frames.lean `Variant`).
+# CODE VARIANT FLAGS — the value that matches the code in /repo as it is now (see Model/Frames.lean `Variant`): 1 = rich 9.10.0 as
+# found, 0 = repaired; all four defects are repaired in /repo.
 # 1 = Align / Padding(expand=False) / Panel(expand=False) render a child whose measured maximum is 0 at width 0
-#     (nothing is drawn: pre-finding F25); 0 = the repair in pending_fixes/C08-zero-width-child.diff is applied.
+#     (nothing is drawn: pre-finding F25); 0 = the repair (fix a9def3a = pending_fixes/C08-zero-width-child.diff), in /repo now.
 ZERO_WIDTH_CHILD = 0
 # 1 = Rule(align="right") repeats `characters` (width - title - 1) TIMES, so multi-cell `characters` push the title out;
-#     0 = the repair in pending_fixes/C08-rule-right-multicell.diff is applied.
+#     0 = the repair (fix 8879061 = pending_fixes/C08-rule-right-multicell.diff), in /repo now.
 RULE_RIGHT_REPEAT = 0
 # 1 = Text.rstrip_end compares the CHARACTER count with the cell width, so a rule / panel title with zero-width characters
 #     that exactly fills its width loses trailing blanks (finding rule-rstrip-zero-width);
-#     0 = the repair in pending_fixes/C08-rstrip-end-counts-cells.diff is applied.
+#     0 = the repair (fix f5f2be9 = pending_fixes/C08-rstrip-end-counts-cells.diff), in /repo now.
 RSTRIP_COUNTS_CHARS = 0
 # 1 = Columns(width=w) computes max_width // (w + padding) columns, possibly 0, and raises ZeroDivisionError (F11);
-#     0 = the repair `max(1, max_width // max(1, w + padding))` (pending_fixes/C08-columns-width-plus-padding-zero.ALTERNATIVE-to-C14.diff) is applied.
+#     0 = the repair `max(1, max_width // max(1, w + padding))` (fix f7ecf83; proposed as pending_fixes/C08-columns-width-plus-padding-zero.ALTERNATIVE-to-C14.diff), in /repo now.
 COLUMNS_ZERO_COUNT = 0
 VARIANT = ZERO_WIDTH_CHILD + 2 * RULE_RIGHT_REPEAT + 4 * RSTRIP_COUNTS_CHARS + 8 * COLUMNS_ZERO_COUNT
 
@@ -729,14 +730,18 @@ MANIFEST = {
     "over exact rationals; columns_each_once_in_order (grid handed to the inner table: every item exactly once, row-first / column-first closed form / "
     "right-to-left, blanks only at the end of the last row) plus the exact ZeroDivisionError condition; tree_walk_is_depth_first (the explicit stack machine "
     "of Tree.__rich_console__, with termination, equals the depth-first reference walk), tree_prefix_four_cells_per_level, tree_rect. "
-    "Witnesses: old_align_drops_child_line / old_padding_fit_drops_child_line / old_panel_fit_has_no_body_row (F25), rule_short_after_rstrip. "
-    "Tie: ~60k (quick) generated (environment, child, frame options, width) cases per run compared text-for-text between the Lean model and real rich, "
+    "Witnesses for the four defects of rich 9.10.0 as found (all repaired in /repo): old_align_drops_child_line / old_padding_fit_drops_child_line / "
+    "old_panel_fit_has_no_body_row (F25, fix a9def3a), old_rule_right_loses_title (fix 8879061), old_rule_short_after_rstrip (fix f5f2be9), "
+    "old_columns_zero_division_iff (F11, fix f7ecf83; columns_repaired_never_raises for the repaired variant). "
+    "Tie: ~119k (quick; evidence/C08.json: 118,648 = 92,560 renders + 23,662 measurements + 2,417 Columns grids + 9 padding unpacks) generated (environment, child, frame options, width) cases per run compared text-for-text between the Lean model and real rich, "
     "with the children tabulated on real rich, plus the theorems' statements evaluated on rich's own output by an independent oracle.",
     "note": "Trusted: Lean kernel; axioms propext/Classical.choice/Quot.sound; translators harness/tables.py + harness/gen/boxes.py; the correspondence harness. "
     "Partial: styles are not modelled in frames (text, line structure and control flags are); Panel titles / Rule texts outside the one-line, tab-free, "
     "fits-the-width domain answer `unmodelled` (their Text rendering is C02's); Bar / ProgressBar floats are exact rationals (generated inputs are ints / dyadic); "
     "the inner Table of Columns is an oracle (C07): the theorem is about the grid handed to it; VerticalCenter and Panel/Align `style` are not modelled. "
-    "Genuine defects reported: F25 (zero-width child dropped by Align / Padding(expand=False) / Panel(expand=False)), rule one cell short after Text.rstrip_end "
-    "with zero-width characters, F23 (ProgressBar emits no line feed), F11 (Columns(width >= available) raises ZeroDivisionError).",
+    "Genuine defects found, all repaired in /repo except F23: F25 (zero-width child dropped by Align / Padding(expand=False) / Panel(expand=False); fix a9def3a), "
+    "Rule(align='right') with multi-cell characters losing its title (fix 8879061), rule one cell short after Text.rstrip_end with zero-width characters "
+    "(fix f5f2be9), F11 (Columns(width >= available) raises ZeroDivisionError; fix f7ecf83); F23 (ProgressBar emits no line feed) is the known finding "
+    "progressbar-no-newline (KNOWN-FINDING on every run, theorem progress_bar_has_no_newline).",
     "design_ref": "DESIGN.md section 7 (C01, C07, C08, C09 block) and section 8 (F11, F23, F25)",
 }
